@@ -69,7 +69,7 @@ def extern_adapters(mod, extern_prefix):
     return "\n".join(L) + "\n"
 
 
-def cpp_unit(run_dir, tag, cpp_srcs, shares=vlib.DEFAULT_SHARES, backend="c64", opt="-O2", extra_flags=()):
+def cpp_unit(run_dir, tag, cpp_srcs, shares=vlib.DEFAULT_SHARES, backend="c64", opt="-O2", extra_flags=(), null_gep=False):
     """Compile C++ sources (repo-relative or absolute) with clang++, link, optimise as one module (devirtualisation),
     translate.  Returns (translated C path, adapter C path, skipped functions)."""
     out = os.path.join(run_dir, "cpp-%s-%s-%d%d%d.c" % (tag, backend, shares[0], shares[1], shares[2]))
@@ -98,7 +98,7 @@ def cpp_unit(run_dir, tag, cpp_srcs, shares=vlib.DEFAULT_SHARES, backend="c64", 
         r = subprocess.run(["opt-14", "-O2", "-vectorize-loops=false", "-vectorize-slp=false", "-S", linked, "-o", linked + ".opt"], capture_output=True, text=True)
         if r.returncode != 0:
             raise RuntimeError("opt failed: " + r.stderr[-2000:])
-        text, mod = ll2c.translate(open(linked + ".opt").read(), prefix="ir_", pair=False, extern_prefix="x_")
+        text, mod = ll2c.translate(open(linked + ".opt").read(), prefix="ir_", pair=False, extern_prefix="x_", null_gep=null_gep)
         with open(adp, "w") as f:
             f.write(extern_adapters(mod, "x_"))
         with open(out + ".skipped", "w") as f:
